@@ -52,7 +52,6 @@ NOT_APPLICABLE = {
            'of memory on any harness that constructs a Sodg',
     'C14': 'regex, str::split/trim, u8::from_str_radix: Verus has no str byte reasoning, Kani cannot execute regex',
     'C17': 'starts_with, chars().skip().collect(), parse::<usize>(), format!: outside Verus; Kani timed out (15 min) on a one-character input',
-    'C18': 'the observable is a document produced by xml-builder, format! and itertools::sorted; no contract can speak about it',
     'C20': 'output built by format!/join over HashSet-guarded recursion; no contract within reach',
 }
 
@@ -225,6 +224,43 @@ PROPS = {
         'function newly consults shared/nondeterministic state).',
         ['independence of the two copies is value semantics of emap::Map::clone (trusted; Kani audit in the thorough tier)'],
         extra=dict(classify=classify_config_sensitive(SENSITIVE_NONDET), classify_exempt=('clone',))),
+    'C18': dict(
+        units=['U_xml'], level='proof',
+        technique='contract-based deductive verification (Verus) of the real to_xml() and to_dot(): the element tree handed to '
+                  'the XML builder equals xml_doc(abstract graph) (one <v> per present vertex, ascending, edges in label '
+                  'order, data if any); to_dot() emits one node line per present vertex and one line per edge; xml-builder, '
+                  'itertools::sorted_by_key, Display and string functions by trusted contracts',
+        level_text='Unbounded proof on the extracted real to_xml(): when it returns Ok, the text is '
+                   'utf8(xml_render(xml_doc(abs))) where xml_doc is a spec function of the abstract graph - exactly one <v> '
+                   'element per PRESENT vertex and none for absent ids, in ascending id order, one <e> per edge with its '
+                   'label and target in label order, a <data> element iff the vertex has data - and the lemma that two '
+                   'graphs with the same present ids, edge sets, data and has-data status give the same document however '
+                   'they were built. For to_dot() only the structure is decided (the text of every line is built with '
+                   'format!, which is opaque): header + one line per present vertex + one line per edge of a present '
+                   'vertex + closing line. Every loop terminates.',
+        level_note='Trusted: Verus/Z3; contracts of the xml-builder crate (XMLElement::new/add_attribute/add_child/add_text, '
+                   'XML::set_root_element/generate = an uninterpreted function of the element tree), of itertools '
+                   'sorted_by_key (stable sort; identity when the keys already ascend; sorting by label is a function of the '
+                   'edge set when labels are distinct), of std from_utf8 / str::replace / ToString (functions of their '
+                   'arguments), of Hex::print (a function of the byte string). NOT decided: the concrete characters '
+                   '(escaping, hex formatting, DOT line text), i.e. everything below the level of "which elements, '
+                   'attributes and texts are handed to the builder".',
+        design_ref='DESIGN.md §4 C18',
+        trusted_base=GRAPH_TRUSTED + [
+            'xml-builder 0.5: XMLElement / XML / XMLBuilder specified over a ghost element tree XNode; what generate() writes is '
+            'xml_render(tree), uninterpreted',
+            'itertools::sorted_by_key on the emap iterator / its filter (keys = slot ids: already ascending, stable sort = identity) '
+            'and on the micromap pair iterator (sorted_pairs: a permutation; canonical when keys are distinct)',
+            'ToString for usize / Label, str::replace, std::str::from_utf8, Hex::print: functions of their arguments '
+            '(dec_text, label_text, replaced, utf8_text, hex_text: uninterpreted)',
+            '<[T]>::join, format! (T9): opaque (DOT text)'],
+        explanation='to_xml-text-is-a-function-of-the-present-graph (postcondition), the loop obligations '
+                    '(vertices-iterated-are-the-present-ones, one-v-per-present-vertex-ascending, one-e-per-edge-in-label-order, '
+                    'v-element, document), to_dot-line-count; lemmas lemma_xml_doc_determined, lemma_v_nodes_count.',
+        not_covered=['the characters of the output (XML escaping, the hex text of data, the text of every DOT line)',
+                     'to_dot(): which line is which (all lines are format! results); only their number is decided'],
+        assumptions=['the graph is well-formed (wf)'],
+    ),
     'C19': graph_prop(
         'C19',
         'contract-based deductive verification (Verus): post-state and result of every core operation are functions of the '
